@@ -302,3 +302,30 @@ Proof.
   - rewrite NlenA. lia.
   - exact Hflen.
 Qed.
+
+(* ---- C05's hypothesis, stand-alone: the sections of a level, as the writer lays them out, are sorted by
+   (chromosome, start) whenever the chromosome ids increase in file order (they are 0,1,2,.. for an accepted
+   input) and every chromosome's entries are what the writer accepts ---- *)
+Theorem bb_level_sections_sorted fp ips size (chs : list (N * list BedSweep.entry)) per sds pos :
+  1 <= size -> StronglySorted N.lt (map fst chs) ->
+  Forall (fun c => BedTile.valid_zoom_chrom BedSweep.U32_MAX (snd c)) chs ->
+  Forall2 (fun c recs => BedSweep.bb_zoom_records fp ips size (fst c) (snd c) = Ok recs) chs per ->
+  mapM (encode_zoom_section fp) (concat per) = Ok sds ->
+  RTreeBuild.sorted_starts (map sect_span (place pos sds)).
+Proof.
+  intros Hsz Hid Hv Hper Henc. eapply sections_sorted; [|exact Henc].
+  assert (Hfits : Forall2 (fun c rs => BedTile.recs_sorted 0 (concat rs) /\ Forall (fun z => z_chrom z = fst c) (concat rs)) chs per).
+  { clear - Hsz Hv Hper. induction Hper as [|c rs chs per Hr _ IH]; [constructor|]. inversion Hv as [|? ? Hc Hv']; subst.
+    constructor; [|apply IH; exact Hv'].
+    destruct (zoom_records_fit fp BedSweep.U32_MAX ips size (fst c) (snd c) rs Hsz Hc Hr) as [A B]. split; [exact A|].
+    eapply Forall_impl; [|exact B]. intros z (C & _). exact C. }
+  rewrite concat_concat.
+  assert (E : map (@concat zrec) per = map snd (map (fun p => (fst (fst p), concat (snd p))) (combine chs per))).
+  { rewrite map_map. cbn [snd]. clear - Hfits. induction Hfits as [|c' rs chs per _ _ IH]; [reflexivity|]. cbn [combine map]. now rewrite IH. }
+  rewrite E. rewrite <- flat_map_concat_map. apply chroms_sorted_rec_le.
+  - rewrite map_map. cbn [fst].
+    assert (E2 : map (fun p : (N * list BedSweep.entry) * list (list zrec) => fst (fst p)) (combine chs per) = map fst chs).
+    { clear - Hfits. induction Hfits as [|c' rs chs per _ _ IH]; [reflexivity|]. cbn [combine map fst]. now rewrite IH. }
+    rewrite E2. exact Hid.
+  - clear - Hfits. induction Hfits as [|c' rs chs per Hh _ IH]; [constructor|]. cbn [combine map]. constructor; [exact Hh|exact IH].
+Qed.
